@@ -31,10 +31,14 @@ Theorem c09_pinned_d10_refuted : cnt in_resolver (gs (run pinned_d10 (init false
 Proof. exact d10_refuted. Qed.
 
 (* progress: in a quiescent state with a context and a reference, a resolver call is in progress, or the latest
-   result (value or error) is in the target containers and was the last notification of every reference callback *)
+   result (value or error) is in the target containers and was the last notification of every reference callback.
+   "Has a context" is read as: a context is installed and its owner has not cancelled it ([rcanc]).  With a root context
+   that was cancelled but not cleared, resolve() may take the ctx.Done branch of its first select, wait for its
+   predecessor and return WITHOUT calling the resolver: then nothing is delivered and nothing runs (example below);
+   the property is not claimed for that situation. *)
 Theorem c09_progress : forall ku es, Forall wf_ev es ->
   let s := run repaired (init ku) es in
-  quiescent s = true -> kctx s <> 0 -> nrefs s > 0 ->
+  quiescent s = true -> kctx s <> 0 -> rcanc s (kctx s) = false -> nrefs s > 0 ->
   (exists g, g < length (gs s) /\ in_resolver (getg s g) = true) \/
   (resolved s = true /\
    (verr s = 0 -> target s = value s /\ terr s = 0) /\ (verr s <> 0 -> terr s = verr s) /\
@@ -45,9 +49,9 @@ Print Assumptions c09_progress.
 (* there is always a goroutine of the current generation on its way while context + reference + nothing resolved *)
 Theorem c09_current_goroutine_exists : forall ku es, Forall wf_ev es ->
   let s := run repaired (init ku) es in
-  kctx s <> 0 -> nrefs s > 0 -> resolved s = false ->
+  kctx s <> 0 -> nrefs s > 0 -> resolved s = false -> rcanc s (kctx s) = false ->
   exists g, g < length (gs s) /\ gnonce (getg s g) = nonce s /\ gdone (getg s g) = false.
-Proof. intros ku es Hwf. destruct (run_inv ku es Hwf) as [_ [_ [_ P]]]. exact P. Qed.
+Proof. intros ku es Hwf. destruct (run_inv ku es Hwf) as [_ [_ [_ [P _]]]]. exact P. Qed.
 Print Assumptions c09_current_goroutine_exists.
 
 (* delivery, in every reachable state (not only quiescent ones): a stored result is in the target containers and is the
@@ -106,3 +110,13 @@ Example c09_example_released_restarts :
   let s := run repaired (init false) [ESetCtx 1; EAddRef 1; EProceed 0 true; EResReturn 0 1 true 0; EStore 0; EReleased 0] in
   resolved s = false /\ target s = 0 /\ length (gs s) = 2 /\ map rlast (refs s) = [Some NGone].
 Proof. vm_compute. repeat split; reflexivity. Qed.
+
+(* the root context is cancelled by its owner (not cleared): a goroutine queued behind a running resolver call may give up
+   without resolving - context installed, reference present, nothing running, nothing delivered *)
+Example c09_example_cancelled_root_no_progress :
+  let es := [ESetCtx 1; EAddRef 1; EProceed 0 true; EReleased 0; ECancelRoot 1; EProceed 1 false; EResReturn 0 1 false 0; EStore 0;
+             EProceed 1 false] in
+  let s := run repaired (init false) es in
+  Forall wf_ev es /\ quiescent s = true /\ kctx s = 1 /\ nrefs s = 1 /\ resolved s = false /\ rcanc s 1 = true /\
+  map gdone (gs s) = [true; true].
+Proof. split; [repeat constructor; discriminate | vm_compute; repeat split; reflexivity]. Qed.
